@@ -92,6 +92,9 @@ def add_add_op_after_concat(op, arch):
 
     # Add scaled and alpha multiplied values (without scaling)
     out = op.outputs[0]
+    if len(out.shape) == 4 and out.shape[0] > 1:
+        # An elementwise operation covers one batch only: a concatenation along the batch axis writes its output itself
+        return op
     out_shape = out.shape.copy()
     in1 = Tensor(out_shape, out.dtype, f"{op.outputs[0].name}_sub")
     in1.quantization = out.quantization
@@ -2005,21 +2008,24 @@ def convert_pad_to_concat(op, arch, nng):
     left_size, right_size = pad_tensor.values[axis, :]
 
     input_tensors = [inp]
+    # Every part of a concatenation is written by one copy of height x width x depth: along the batch axis the padding is
+    # therefore made of parts of one batch each (the same constant, as often as there are batches to add)
+    part_size = 1 if axis == 0 else None
     if left_size != 0:
         shape = inp.shape.copy()
-        shape[axis] = left_size
+        shape[axis] = part_size or left_size
         pad_value = np.prod(shape) * [quantization.zero_point]
         left_tens = create_const_tensor(
                 f"{op.name}_left", shape, dtype, pad_value, quantization=quantization)
-        input_tensors.insert(0, left_tens)
+        input_tensors = [left_tens] * (left_size if part_size else 1) + input_tensors
 
     if right_size !=0:
         shape = inp.shape.copy()
-        shape[axis] = right_size
+        shape[axis] = part_size or right_size
         pad_value = np.prod(shape) * [quantization.zero_point]
         right_tens = create_const_tensor(
                 f"{op.name}_right", shape, dtype, pad_value, quantization=quantization)
-        input_tensors.append(right_tens)
+        input_tensors = input_tensors + [right_tens] * (right_size if part_size else 1)
 
     op.type = Op.ConcatTFLite
     op.name = f"{op.name}_concat"
